@@ -18,6 +18,7 @@ import (
 	"go.opentelemetry.io/collector/pdata/pmetric"
 	"go.opentelemetry.io/collector/pdata/pprofile"
 	"go.opentelemetry.io/collector/pdata/ptrace"
+	"go.opentelemetry.io/collector/verifharness/pview"
 	"go.opentelemetry.io/collector/verifharness/vt"
 )
 
@@ -33,6 +34,9 @@ type RwScript struct {
 	Kind string
 	JSON string
 	Mask []bool // Mask[i % len]: apply the i-th possible edit
+	// Ins[i % len] decides about the i-th (object, absent insertable field) candidate of defaults_test.go:
+	// 0-3 nothing; otherwise form (b-4)%nforms is inserted, at the end of the object when b >= 7.  nil: no insertion.
+	Ins []int
 }
 
 // JSON names of the 64-bit integer fields (int64, uint64, fixed64, sfixed64)
@@ -220,7 +224,11 @@ func genRw(t *rapid.T) RwScript {
 	default:
 		mask = rapid.SliceOfN(rapid.Bool(), 1, 48).Draw(t, "mask")
 	}
-	return RwScript{Kind: k, JSON: string(j), Mask: mask}
+	var ins []int
+	if rapid.IntRange(0, 3).Draw(t, "insert?") != 0 {
+		ins = rapid.SliceOfN(rapid.IntRange(0, 9), 1, 32).Draw(t, "ins")
+	}
+	return RwScript{Kind: k, JSON: string(j), Mask: mask, Ins: ins}
 }
 
 func runRw(s RwScript) (nt bool, key string, f *vt.Finding) {
@@ -230,7 +238,7 @@ func runRw(s RwScript) (nt bool, key string, f *vt.Finding) {
 
 func runRwInner(s RwScript) (bool, string, *vt.Finding) {
 	h := sha256.New()
-	fmt.Fprintf(h, "%s|%s|%v", s.Kind, s.JSON, s.Mask)
+	fmt.Fprintf(h, "%s|%s|%v|%v", s.Kind, s.JSON, s.Mask, s.Ins)
 	key := string(h.Sum(nil))
 	c := codecs[s.Kind]
 	if c == nil || len(s.Mask) == 0 {
@@ -268,9 +276,31 @@ func runRwInner(s RwScript) (bool, string, *vt.Finding) {
 	if err != nil {
 		return false, key, vt.Failf("roundtrip/json/"+s.Kind+"/rejected", "UnmarshalJSON rejects what MarshalJSON produced: %v\n%s", err, cut(s.JSON))
 	}
-	// verdict of one set of edits: "" when the decoded payload is unchanged
-	try := func(es []edit) string {
-		got, err, pan := decode(applyEdits(s.JSON, es))
+	// explicit defaults inserted into objects that lack the field (defaults_test.go)
+	var objs []jobject
+	var ins []insertion
+	if len(s.Ins) > 0 {
+		var unknown []string
+		objs, unknown, err = scanObjects(s.JSON, rootType(c))
+		if err != nil {
+			return false, key, vt.Failf("marshal-json-invalid/"+s.Kind, "MarshalJSON output is not valid JSON: %v", err)
+		}
+		for _, u := range unknown {
+			cRw.Class("harness:key-not-in-schema:" + u)
+		}
+		for i, cd := range insertCandidates(objs) {
+			b := s.Ins[i%len(s.Ins)]
+			if b < 4 {
+				continue
+			}
+			forms := defaultForms(cd.f)
+			fm := forms[(b-4)%len(forms)]
+			ins = append(ins, insertion{obj: cd.obj, typ: objs[cd.obj].typ, key: cd.f.name, form: fm.name, text: fm.text, atEnd: b >= 7})
+		}
+	}
+	// verdict of one set of changes: "" when the decoded payload is unchanged
+	try := func(es []edit, is []insertion) string {
+		got, err, pan := decode(renderEdits(s.JSON, objs, es, is))
 		switch {
 		case pan != "":
 			return "panics: " + pan
@@ -281,29 +311,52 @@ func runRwInner(s RwScript) (bool, string, *vt.Finding) {
 		}
 		return ""
 	}
-	for len(edits) > 0 { // every round removes at least one edit
-		verdict := try(edits)
+	for len(edits)+len(ins) > 0 { // every round removes at least one change
+		verdict := try(edits, ins)
 		if verdict == "" {
 			break
 		}
-		// find one edit that is refused on its own (the decoders treat fields independently)
-		culprit := -1
+		// find one change that is refused on its own (the decoders treat fields independently)
+		culprit, culpritIns := -1, -1
 		cv := ""
 		for i := range edits {
-			if v := try(edits[i : i+1]); v != "" {
+			if v := try(edits[i:i+1], nil); v != "" {
 				culprit, cv = i, v
 				break
 			}
 		}
 		if culprit < 0 {
-			return true, key, vt.Failf("json-rewrite/combination/"+c.signal, "rewritten text %s although every single edit is accepted\n%s", verdict, cut(applyEdits(s.JSON, edits)))
+			for i := range ins {
+				if v := try(nil, ins[i:i+1]); v != "" {
+					culpritIns, cv = i, v
+					break
+				}
+			}
+		}
+		if culprit < 0 && culpritIns < 0 {
+			return true, key, vt.Failf("json-rewrite/combination/"+c.signal, "rewritten text %s although every single change is accepted\n%s", verdict, cut(renderEdits(s.JSON, objs, edits, ins)))
+		}
+		outcome := strings.SplitN(cv, ":", 2)[0]
+		if culpritIns >= 0 {
+			in := ins[culpritIns]
+			kf := defaultFinding(c, in, outcome, cv)
+			if !cRw.Soft(kf, s) {
+				return true, key, kf
+			}
+			var rest []insertion
+			for _, x := range ins {
+				if !(x.typ == in.typ && x.key == in.key && x.form == in.form) {
+					rest = append(rest, x)
+				}
+			}
+			ins = rest
+			continue
 		}
 		e := edits[culprit]
 		what := "64-bit integer written as a number"
 		if e.class == "enum" {
 			what = "enum written by name"
 		}
-		outcome := strings.SplitN(cv, ":", 2)[0]
 		kf := vt.Failf("json-"+e.class+"-alt-form-"+outcome+"/"+c.signal+"/"+e.key,
 			"%s under %q: replacing %s by %s makes UnmarshalJSON %s (kind %s)", what, e.key, s.JSON[e.start:e.end], e.repl, cut(cv), c.name)
 		if !cRw.Soft(kf, s) {
@@ -317,6 +370,16 @@ func runRwInner(s RwScript) (bool, string, *vt.Finding) {
 			}
 		}
 		edits = rest
+	}
+	insForms := map[string]bool{}
+	for _, in := range ins {
+		insForms[in.form] = true
+	}
+	for _, k := range pview.SortedKeys(insForms) {
+		cRw.Class("inserted-default:" + k)
+	}
+	if len(ins) > 0 {
+		cRw.Class("explicit-defaults-inserted")
 	}
 	nInt, nEnum := 0, 0
 	seen := map[string]bool{}
@@ -343,7 +406,7 @@ func runRwInner(s RwScript) (bool, string, *vt.Finding) {
 	if nEnum > 0 {
 		cRw.Class("enum-as-name")
 	}
-	return nInt+nEnum > 0, key, nil
+	return nInt+nEnum+len(ins) > 0, key, nil
 }
 
 func TestJSONRewrite(t *testing.T) {
